@@ -5,7 +5,7 @@ import float_grid
 
 EXTRA = {
     # the float layer: Base/FloatGrid*.v, Base/FloatDue*.v, Generated/TablesTime.v (Props/C01Float.v)
-    "C01": (("gen_tables_time.py",), (float_grid.check_float_grid,)),
+    "C01": (("gen_tables_time.py", "gen_tables_track.py"), (float_grid.check_float_grid,)),   # + Track.tick -> Sched/ModelSrcTrack.v, Props/C01Src.v
     # Props/C02Float.v, Props/C05Float.v: the note-off and action due tests generated from the source
     # + the scheduler core translated from the source text (docs/TRANSLATOR3.md): gen_tables_track.py -> Generated/TablesTrack.v,
     #   tied to Sched/Model.v in Sched/ModelSrc.v (glue: Sched/SrcGlue.v), theorems restated in Props/C02Src.v, C06Src.v ...
